@@ -658,13 +658,38 @@ def drop_workspace(ws, out):
         shutil.rmtree(ws.root, ignore_errors=True)
 
 
+def open_session(ws, sess_exe):
+    """a LONG-LIVED client for this history: one BuildSystem object (harness vc10, op `session`) does every build"""
+    if not sess_exe:
+        return None
+    sess = subprocess.Popen([sess_exe, "c10build"], stdin=subprocess.PIPE, stdout=subprocess.PIPE, stderr=subprocess.DEVNULL)
+    ws.session = sess
+    return sess
+
+
+def close_session(ws, sess):
+    if sess is None:
+        return
+    try:
+        sess.stdin.close()
+        sess.wait(timeout=20)
+    except Exception:
+        sess.kill()
+    ws.session = None
+
+
+LONG_LIVED_EVERY = 4      # every fourth generated history of each stream runs on a long-lived client
+
+
 def run_history(args):
-    (hid, seed, exe, scratch, depth, fan, cap, nbuilds) = args
+    (hid, seed, exe, scratch, depth, fan, cap, nbuilds) = args[:8]
     rng = C.Rng(seed, "C12/h%d" % hid)
     patterns = PATTERN_SETS[hid % len(PATTERN_SETS)]
     ws = WS(os.path.join(scratch, "h%d" % hid), patterns, exe)
+    sess = open_session(ws, args[8] if len(args) > 8 and hid % LONG_LIVED_EVERY == 3 else None)
     gen_tree(ws, rng, depth, fan, cap)
     out = new_out(hid, ws)
+    out["session"] = sess is not None
     history = []
     for b in range(nbuilds):
         edits = []
@@ -680,6 +705,7 @@ def run_history(args):
                         break
         history.append(edits)
         do_build(ws, out, edits, history, {"history": hid, "stream": "h", "seed": seed})
+    close_session(ws, sess)
     drop_workspace(ws, out)
     return out
 
@@ -689,12 +715,14 @@ S_MODES = ["default", "checksum-only", "device-agnostic", "default", "checksum-o
 
 def run_history_s(args):
     """second stream (own RNG stream): stat-preserving entry-set edits, same-size rewrites, all file-system modes"""
-    (hid, seed, exe, scratch, depth, fan, cap, nbuilds) = args
+    (hid, seed, exe, scratch, depth, fan, cap, nbuilds) = args[:8]
     rng = C.Rng(seed, "C12/s%d" % hid)
     patterns = PATTERN_SETS[(hid // len(S_MODES)) % len(PATTERN_SETS)]
     ws = WS(os.path.join(scratch, "s%d" % hid), patterns, exe, S_MODES[hid % len(S_MODES)])
+    sess = open_session(ws, args[8] if len(args) > 8 and hid % LONG_LIVED_EVERY == 3 else None)
     gen_tree(ws, rng, depth, fan, cap)
     out = new_out("s%d" % hid, ws)
+    out["session"] = sess is not None
     history = []
     for b in range(nbuilds):
         edits = []
@@ -712,6 +740,7 @@ def run_history_s(args):
                         break
         history.append(edits)
         do_build(ws, out, edits, history, {"history": "s%d" % hid, "stream": "s", "seed": seed})
+    close_session(ws, sess)
     drop_workspace(ws, out)
     return out
 
@@ -991,8 +1020,9 @@ class Check(PropertyCheck):
             nh, ns, nt, depth, fan, cap, nb = 2000, 2000, 1470, 6, 6, 60, 10
         else:
             nh, ns, nt, depth, fan, cap, nb = 600, 600, 441, 4, 4, 24, 8
-        jobs = [(h, ctx.seed, exe, scratch, depth if h % 3 else 2, fan, cap, nb) for h in range(nh)]
-        jobs_s = [(h, ctx.seed, exe, scratch, depth if h % 4 else 2, fan, cap, nb) for h in range(ns)]
+        sx = ctx.exe.get(("vc10", "plain"))
+        jobs = [(h, ctx.seed, exe, scratch, depth if h % 3 else 2, fan, cap, nb, sx) for h in range(nh)]
+        jobs_s = [(h, ctx.seed, exe, scratch, depth if h % 4 else 2, fan, cap, nb, sx) for h in range(ns)]
         jobs_t = [(h, ctx.seed, exe, scratch, min(depth, 4) if h % 4 else 2, min(fan, 4), min(cap, 24), nb) for h in range(nt)]
         specs = self.corpus(ctx)
         # processes, not threads: the python observer is CPU-bound (a thread pool is ~10x slower under the GIL)
@@ -1034,6 +1064,7 @@ class Check(PropertyCheck):
         res.evaluations += builds * 4
         res.distinct_nontrivial += sum(expected)
         res.distribution.update({"histories": nh, "histories_second_stream": ns, "histories_third_stream": nt,
+                                 "generated_histories_on_a_long_lived_client": sum(1 for o in outs_s + outs if o.get("session")),
                                  "histories_by_node_path": node_paths, "corpus_histories": [n for n, _ in specs],
                                  "builds": builds, "edits": edits, "initial_tree_nodes_total": nodes,
                                  "reruns_by_variant[tree,tree+filter,struct,struct+filter]": reruns,
